@@ -105,80 +105,76 @@ def min_cost_flow[Node](
     demand: int,
 ) -> Result:
     """Route demand units from source to sink at minimum total cost."""
-    capacity = defaultdict(lambda: defaultdict(int))
-    cost = defaultdict(lambda: defaultdict(lambda: float("inf")))
-    nodes = set()
+    # Residual network over the individual arcs: arc 2k is the k-th input arc, arc 2k+1 its
+    # reverse. Parallel and anti-parallel arcs keep their own capacity and cost this way.
+    heads: list[Node] = []
+    residual: list[int] = []
+    costs: list[int] = []
+    tails: list[Node] = []
+    nodes = {source, sink}
 
     for u in graph:
         nodes.add(u)
         for v, cap, c in graph[u]:
             nodes.add(v)
-            capacity[u][v] += cap
-            cost[u][v] = min(cost[u][v], c)
-            if cost[v][u] == float("inf"):
-                cost[v][u] = -c
+            tails.extend((u, v))
+            heads.extend((v, u))
+            residual.extend((cap, 0))
+            costs.extend((c, -c))
 
-    flow = defaultdict(lambda: defaultdict(int))
     total_cost = 0
     total_flow = 0
     iterations = 0
 
     def bellman_ford():
         dist = {n: float("inf") for n in nodes}
-        parent = {n: None for n in nodes}
+        parent_arc: dict[Node, int] = {}
         dist[source] = 0
 
         for _ in range(len(nodes) - 1):
             updated = False
-            for u in nodes:
-                if dist[u] == float("inf"):
-                    continue
-                for v in nodes:
-                    residual = capacity[u][v] - flow[u][v] + flow[v][u]
-                    if residual > 0 and dist[u] + cost[u][v] < dist[v]:
-                        dist[v] = dist[u] + cost[u][v]
-                        parent[v] = u
-                        updated = True
+            for arc in range(len(heads)):
+                u, v = tails[arc], heads[arc]
+                if residual[arc] > 0 and dist[u] + costs[arc] < dist[v]:
+                    dist[v] = dist[u] + costs[arc]
+                    parent_arc[v] = arc
+                    updated = True
             if not updated:
                 break
 
         if dist[sink] == float("inf"):
-            return None, float("inf")
+            return None
 
         path = []
         node = sink
-        while node is not None:
-            path.append(node)
-            node = parent[node]
+        while node != source:
+            arc = parent_arc[node]
+            path.append(arc)
+            node = tails[arc]
         path.reverse()
-
-        return path, dist[sink]
+        return path
 
     while total_flow < demand:
         iterations += 1
-        path, path_cost = bellman_ford()
+        path = bellman_ford()
         if path is None:
             return Result({}, float("inf"), iterations, iterations, Status.INFEASIBLE)
 
-        path_flow = demand - total_flow
-        for u, v in zip(path, path[1:]):
-            residual = capacity[u][v] - flow[u][v] + flow[v][u]
-            path_flow = min(path_flow, residual)
+        path_flow = min(demand - total_flow, min(residual[arc] for arc in path))
 
-        for u, v in zip(path, path[1:]):
-            if flow[v][u] > 0:
-                reduce = min(path_flow, flow[v][u])
-                flow[v][u] -= reduce
-                remaining = path_flow - reduce
-                flow[u][v] += remaining
-                total_cost += cost[u][v] * remaining - cost[v][u] * reduce
-            else:
-                flow[u][v] += path_flow
-                total_cost += cost[u][v] * path_flow
+        for arc in path:
+            residual[arc] -= path_flow
+            residual[arc ^ 1] += path_flow
+            total_cost += costs[arc] * path_flow
 
         total_flow += path_flow
 
-    flows = {(u, v): flow[u][v] for u in flow for v in flow[u] if flow[u][v] > 0}
+    flows: dict[tuple[Node, Node], int] = {}
+    for arc in range(0, len(heads), 2):
+        sent = residual[arc + 1]
+        if sent > 0:
+            key = (tails[arc], heads[arc])
+            flows[key] = flows.get(key, 0) + sent
     return Result(flows, total_cost, iterations, iterations)
 
 
